@@ -64,6 +64,10 @@ def edits(name: str, mid: int, fields: Fields) -> List[Tuple[str, str, int, Fiel
     for i in range(n + 1):
         for t in TYPES:
             out.append((f"insert@{i}:{t}", name, mid, fields[:i] + (("g", t),) + fields[i:]))
+        # a field the author calls what the compiler calls its own padding is a field like any other
+        out.append((f"insert-padding-named@{i}", name, mid, fields[:i] + ((f"padding_{i}_", "int32"),) + fields[i:]))
+    for i in range(n):
+        out.append((f"field-rename-padding-named@{i}", name, mid, fields[:i] + ((f"padding_{i}_", fields[i][1]),) + fields[i + 1:]))
     for i, j in itertools.combinations(range(n), 2):
         if fields[i] != fields[j]:
             lst = list(fields)
@@ -482,6 +486,65 @@ def reserved_field_names(d: str) -> Tuple[List[Dict[str, Any]], int]:
     return problems, n
 
 
+SENS_TEXT = """message_defs:
+  SENS:
+    id: 01750
+    fields:
+      y: int32
+      n: int32
+      on: double
+      off: double
+  SENS_SIG:
+    id: 01751
+    fields: null
+"""
+
+
+def yaml_directives(d: str) -> Tuple[List[Dict[str, Any]], int]:
+    """the files of one import graph are separate YAML documents: a `%YAML` directive at the top of one of them (old export tools write
+    `%YAML 1.1`) says nothing about the others. A definition whose text YAML 1.1 would read differently (zero-padded id, fields called
+    y / n / on / off) hashes the same whether such a file is imported before it, after it, imports it, or is absent."""
+    problems = []
+    n = 0
+    old = "%YAML 1.1\n---\nconstants:\n  OLD_K: 1\n"
+    new12 = "%YAML 1.2\n---\nconstants:\n  NEW_K: 1\n"
+    variants = [
+        ("alone", {"root.yaml": {"imports": ["defs.yaml"]}, "defs.yaml": SENS_TEXT}),
+        ("yaml-1.1-file-imported-before", {"root.yaml": {"imports": ["old.yaml", "defs.yaml"]}, "old.yaml": old, "defs.yaml": SENS_TEXT}),
+        ("yaml-1.1-file-imported-after", {"root.yaml": {"imports": ["defs.yaml", "old.yaml"]}, "old.yaml": old, "defs.yaml": SENS_TEXT}),
+        ("yaml-1.1-root-imports-it", {"root.yaml": "%YAML 1.1\n---\nimports:\n  - defs.yaml\nconstants:\n  OLD_K: 1\n", "defs.yaml": SENS_TEXT}),
+        ("yaml-1.1-file-deeper-before", {"root.yaml": {"imports": ["a.yaml", "defs.yaml"]}, "a.yaml": {"imports": ["sub/old.yaml"], "constants": {"A_K": 1}}, "sub/old.yaml": old,
+                                         "defs.yaml": SENS_TEXT}),
+        ("yaml-1.2-file-imported-before", {"root.yaml": {"imports": ["new.yaml", "defs.yaml"]}, "new.yaml": new12, "defs.yaml": SENS_TEXT}),
+        ("yaml-1.1-then-1.2-before", {"root.yaml": {"imports": ["old.yaml", "new.yaml", "defs.yaml"]}, "old.yaml": old, "new.yaml": new12, "defs.yaml": SENS_TEXT}),
+    ]
+    ref = None
+    for label, files in variants:
+        n += 1
+        try:
+            for x in os.listdir(d):
+                q = os.path.join(d, x)
+                import shutil
+
+                shutil.rmtree(q) if os.path.isdir(q) else os.remove(q)
+            pm = defx.parse_model(defx.Program(files).write(d), import_coredefs=False)
+            got = {k: (pm.message_defs[k].hash[:8], pm.message_defs[k].type_id, [f.name for f in pm.message_defs[k].fields]) for k in ("SENS", "SENS_SIG")}
+        except Exception as e:
+            got = {"rejected": f"{type(e).__name__}: {str(e)[:120]}"}
+        if ref is None:
+            ref = got
+            if "rejected" in got:
+                return [], n  # the parser does not take such definitions at all: nothing to compare
+            continue
+        if got != ref:
+            problems.append({"kind": "relocation-changes-hash", "where": label, "message": "SENS", "alone": _jsonable(ref), "here": _jsonable(got)})
+    return problems, n
+
+
+def _jsonable(x):
+    return {k: list(v) if isinstance(v, tuple) else v for k, v in x.items()}
+
+
 def manager_versions(_=None) -> Tuple[List[Dict[str, Any]], int]:
     """the manager is a sender too: every frame it originates (acknowledgements, CLIENT_INFO / CLIENT_CLOSED, failure notices, the
     periodic reports, its log records) carries version 0 or the hash of ITS OWN type - whatever the version of the client message it
@@ -645,6 +708,9 @@ def run(tier: str) -> int:
         p6, nrf = reserved_field_names(d)
         allp += p6
         totals["accepted_reserved_field_names"] = nrf
+        p8, nyd = yaml_directives(d)
+        allp += p8
+        totals["yaml_directive_placements"] = nyd
         totals["cross_process_messages"] = nmsg
     finally:
         core.rmtree(d)
@@ -682,6 +748,8 @@ def replay(case) -> int:
             elif "field called" in str(p.get("cls", "")) or "RSV(" in str(p.get("message", "")) or "accepted field name" in str(p.get("lang", "")):
                 hit, _ = reserved_field_names(d)
                 hit = [q for q in hit if q["kind"] == p["kind"]]
+            elif str(p.get("where", "")).startswith("yaml-"):
+                hit, _ = yaml_directives(d)
             elif p["kind"] in ("hash-stale-after-rebuild", "rebuild-rejected"):
                 hit, _ = rebuild_hashes(d)
                 hit = [q for q in hit if q["kind"] == p["kind"]]
